@@ -8,6 +8,7 @@ import (
 	"net/http"
 	"os"
 	"strings"
+	"sync/atomic"
 	"time"
 
 	"github.com/gorilla/websocket"
@@ -211,6 +212,9 @@ func c15WireOn(w *W, trans []string) {
 	}
 	w.Sleep(time.Millisecond)
 	w.Settle()
+	for i := 0; w.Real && attached != 1 && i < 3000; i++ {
+		w.Sleep(10 * time.Millisecond) // wall clock: the attach follows the handshake when the OS gets to it
+	}
 	if attached != 1 {
 		w.Failf("C15/conforming-peer-not-attached:"+kind, "a conforming %#x peer completed the handshake with %s but was not attached", peer, kind)
 		return
@@ -554,6 +558,12 @@ func c15WS(w *W) {
 		mustSet(w, s, mangos.OptionSubscribe, "")
 	}
 	info := s.Info()
+	var wsAttached atomic.Int32
+	s.SetPipeEventHook(func(ev mangos.PipeEvent, p mangos.Pipe) {
+		if ev == mangos.PipeEventAttached {
+			wsAttached.Add(1)
+		}
+	})
 	var ws *websocket.Conn
 	if role == "listen" {
 		l, err := s.NewListener("ws://"+loopIP+":0/sp", nil)
@@ -641,7 +651,15 @@ func c15WS(w *W) {
 		}
 	}
 	defer ws.Close()
-	time.Sleep(20 * time.Millisecond)
+	// (wall clock: a best-effort Send before the pipe is attached would be
+	// dropped, and look like a frame that never came)
+	for i := 0; wsAttached.Load() == 0 && i < 3000; i++ {
+		time.Sleep(10 * time.Millisecond)
+	}
+	if wsAttached.Load() == 0 {
+		w.Failf("C15/conforming-peer-not-attached:"+kind, "%s over ws (%s): the upgrade completed with the right sub-protocol, no pipe was attached within 30s", kind, role)
+		return
+	}
 	for i := 0; i < 3 && !w.Failed(); i++ {
 		body := wireBody(wireLens[w.Choose(simrt.SProg, len(wireLens)-6)], i)
 		if canRecv(kind) && plainInbound(kind) {
